@@ -403,7 +403,8 @@ func fixTransferEncoding(requestMethod string, header Header) ([]string, error) 
 
 	delete(header, "Transfer-Encoding")
 
-	encodings := strings.Split(raw[0], ",")
+	// all Transfer-Encoding fields form one list (RFC 7230 3.2.2)
+	encodings := strings.Split(strings.Join(raw, ","), ",")
 	te := make([]string, 0, len(encodings))
 	// TODO: Even though we only support "identity" and "chunked"
 	// encodings, the loop below is designed with foresight. One
